@@ -34,7 +34,8 @@ def _idle_case(rng, letter):
         if not p["idle"] or not (p["labels"] is None or all(p["labels"][q] is None for q in p["idle"])):
             continue
         q = p["idle"][0]
-        p["obs"][0]["l"] = p["obs"][0]["l"][:q] + letter + p["obs"][0]["l"][q + 1:]
+        # identity elsewhere: the rest of the observable has expectation one, so a dropped letter shows
+        p["obs"][0]["l"] = "I" * q + letter + "I" * (p["nq"] - q - 1)
         return p
 
 
